@@ -38,7 +38,9 @@ Judge(e) ==
              lv == IF r.ok THEN (IF IsReader(e.dec) THEN ReaderLeaves(r.tk) ELSE SliceLeaves(r.tk)) ELSE <<>> IN
          Verdict(<< <<ResAgrees(e.res, r, e.dec), "dec">>,
                     <<~IsPanic(e.res), "panic">>,
-                    <<r.ok => e.leaves = lv, "leaves">>,
+                    \* slice decoding: every borrowed leaf at the position it was encoded; reader decoding: disjoint parts of the
+                    \* scratch, within one copy of the blocks read (which non-borrowed blocks use the scratch is not prescribed)
+                    <<r.ok => (IF IsReader(e.dec) THEN ReaderLeavesOK(e.leaves, r.tk, 0, ScratchNeed(r.tk)) ELSE e.leaves = lv), "leaves">>,
                     <<r.ok => e.transient = 0, "leaves">>,
                     \* a sequence's size hint (what collection visitors pre-allocate from) never exceeds the bytes available
                     <<Has(e, "hints") => \A i \in 1..Len(e.hints) : e.hints[i][1] = 0 => e.hints[i][2] <= 4 * e.avail + 64, "hint">> >>,
